@@ -615,11 +615,30 @@ static void sPlanner(Sink &sink, const Args &a, long c, int which, Rng &rng)
             return;
         }
         perturb = rng.ui(8) != 0;
-        hook::arm(hmix(caseSeed(a, c, 7), rep), perturb);
+        // a third of the full-budget cases continue on the same planner instance: 1-2 further solve() calls, half of them after
+        // clearSolutionPaths() (the roadmap planners' solution thread then finds a path in the existing roadmap at once, while the
+        // roadmap thread is still starting up), the others with a short budget that does not stop at the held solution
+        const int ncalls = (!cutShort && rng.ui(3) == 0) ? 2 + (int)rng.ui(2) : 1;
+        for (int call = 0; call < ncalls; ++call)
+        {
+        hook::arm(hmix(hmix(caseSeed(a, c, 7), rep), call), perturb);
         if (lazy) lazy->startSampling();
         long budget = std::max(300L, (long)pi.budget / 2);
         if (cutShort) budget = (long)rng.logUni(8, 250);
-        EvalPTC e(budget, !pi.optimizing, pdef);
+        bool stopOnExact = !pi.optimizing;
+        if (call > 0)
+        {
+            if (rng.coin()) pdef->clearSolutionPaths();
+            else
+            {
+                stopOnExact = false;
+                budget = (long)rng.logUni(20, 600);
+            }
+            sink.count("c19_planner_continued_solves");
+            sink.count("c19_planner_continued_solves:" + name);
+        }
+        const size_t solsBefore = pdef->getSolutionCount();
+        EvalPTC e(budget, stopOnExact, pdef);
         ob::PlannerStatus st;
         bool threw = false;
         try
@@ -639,7 +658,7 @@ static void sPlanner(Sink &sink, const Args &a, long c, int which, Rng &rng)
             auto sols = pdef->getSolutions();
             bool solStatus = (bool)st;
             if (solStatus && sols.empty()) ctx.viol("status-without-path", ctx.detail("solution status but the problem definition holds no solution path"));
-            if (!solStatus && !sols.empty()) ctx.viol("nonsolution-added-path", ctx.detail("non-solution status but a path was added").i("added", sols.size()));
+            if (!solStatus && sols.size() > solsBefore) ctx.viol("nonsolution-added-path", ctx.detail("non-solution status but a path was added").i("added", sols.size() - solsBefore).i("call", call));
             if (st == ob::PlannerStatus::EXACT_SOLUTION && !pdef->hasExactSolution()) ctx.viol("exact-status-no-exact-solution", ctx.detail("status EXACT_SOLUTION but no exact solution is held"));
             for (auto &s : sols) checkSolution(ctx, s, pdef->getGoal());
             for (size_t k = 1; k < sols.size(); ++k)
@@ -656,6 +675,8 @@ static void sPlanner(Sink &sink, const Args &a, long c, int which, Rng &rng)
         }
         sink.count("c19_yield_events", events);
         emitSig(a, name, sig, events);
+        if (threw) break;
+        }
     }
     sink.noteCase(hmix(sig, hashStr(name)), events > 0 || lazyGoal);
     sink.sample(J().str("kind", "C19 multi-threaded planner run").str("planner", name).str("space", KIND_NAME[w->kind]).b("perturbed", perturb).b("cut_short", cutShort).i("yield_events", events).str("signature", std::to_string(sig)), 4);
